@@ -59,11 +59,14 @@ SETTERS = [
     "\tcpu 68hc11k4\n\tassume mmsiz:1", "\tcpu mn1613\n\tassume csbr:1", "\tcpu melps7751\n\tassume pg:1,dt:2,dpr:$100", "\tcpu 75104\n\tassume mbs:1",
     "\tcpu 80c39\n", "\tcpu 8x305\n", "\tcpu 47c00\n\tassume dmb:1", "\tcpu st6210\n\tassume rombase:5", "\tcpu 1802\n", "\tcpu tms70c00\n",
     "\tcharset\n\tcharset 'a',200", "\terror \"planted\"", "\tfoo_unknown", "\tdb 1000", "\tinclude \"missing.inc\"", "\tend",
+    "\tcpu 6502\n\tbne *+300\n\tbeq *-300", "\tcpu 68000\n\tbra.s *+400", "\tcpu z80\n\tjr $+1000",
     "\tshared leaked", "\tglobal lk2", "\tpublic lk3", "\tforward lk4", "\tlabel 5", "lkr\treg r3", "lkb\tbit 5", "lkp\tport 7",
     "lks\tsfr 80h", "\tdefine leakdef 5", "leakdef\tdefine 5",
 ]
 
 PROBES = {
+    "fwd68k": "\tcpu 68000\n\tbra fw\n\tds.b 200\nfw:\tnop\n\tdc.b 1\nl2:\tdc.w l2\n\tbra fw2\n\tds.b 300\nfw2:\tnop\n",
+    "fwd6502": "\tcpu 6502\n\tlda fw\n\tjmp fw\n\tdfs 300\nfw:\tnop\n",
     "z80": "\tcpu z80\n\tdb 10,'a',\"AZaz\"\n\tdw 1234h\nn1\tnextenum\n\tdb n1\n\tifdef leaked\n\tdb 99\n\tendif\n\tifdef lkm\n\tdb 98\n\tendif\nhere:\tdw here,$\n\tdb lo(1234h)\n$$t:\tdb 1\n\tjr $$t\n-\tnop\n\tjr -\n\tjr +\n+\tnop\npm\tmacro\n\tdb 5\n\tendm\n\tpm\n\tdb 101b,17o\n",
     "68000": "\tcpu 68000\n\tdc.b 10,'a'\n\tdc.w 2\n\tdc.b 1\n\tdc.l $12345678\nhere:\tdc.l here,*\n\tmove.l #5,d0\n\tbra.s here\n\tifdef leaked\n\tdc.b 99\n\tendif\nn1\tnextenum\n\tdc.b n1\n\tmove.l (a0,d0.w),d1\n\tdc.b \"AZaz\"\n",
     "6502": "\tcpu 6502\n\tbyt 10,'a'\n\tadr $1234\nhere:\tadr here,*\n\tlda $12\n\tlda $1234\n\tlda #5\n\tbne here\n\tifdef leaked\n\tbyt 99\n\tendif\nn1\tnextenum\n\tbyt n1\n",
@@ -107,6 +110,7 @@ def member_from_text(text, slot, label):
 
 
 def scenario_for(members, flags, which=None):
+    flags = list(flags)
     """Scenario assembling members[which] (all if None) in one process; same disk and options in every variant."""
     disk = {}
     dirs = ["/w"]
@@ -264,6 +268,8 @@ def run_case(sim, case):
                     m["family"] = family(t)
                 members.append(m)
             members.append(succ)
+            if not flags and rng.chance(0.25):
+                flags = ("-Y",) if rng.chance(0.5) else ("-r",)
             run_history(sim, members, flags, variant, acc, vio)
             sample = {"history": [m["label"] for m in members], "flags": list(flags)}
     elif case["gen"] == "self":
@@ -285,7 +291,7 @@ def run_case(sim, case):
                     b = member_from_text(PROBES[pname], 1, "probe:" + pname)
                     a["family"] = pname[:4] if pre else None
                     b["family"] = pname[:4]
-                    run_history(sim, [a, b], (), "plain", acc, vio)
+                    run_history(sim, [a, b], ("-Y",) if (si + len(pname)) % 3 == 0 else (), "plain", acc, vio)
         sample = {"setter": SETTERS[case["lo"]], "probes": sorted(PROBES)}
     else:
         return {"machinery_error": "unknown generator"}
